@@ -149,7 +149,8 @@ def _script(r, total, first_max=None, lens=(1, 1, 2, 2, 3, 3, 4, 5, 6, 8, 12), s
         l = int(r.choice(lens))
         if not out and first_max is not None:
             l = int(r.integers(1, max(1, min(first_max, 6)) + 1))
-        end = {"term": "term", "trunc": "trunc"}.get(style) or str(r.choice(["term", "trunc"]))
+        # "both": terminated and truncated returned by the same step (TimeLimit expiring on a terminating step)
+        end = {"term": "term", "trunc": "trunc"}.get(style) or str(r.choice(["term", "trunc", "term", "trunc", "both"]))
         if l <= short_term:
             end = "term"
         out.append([l, end])
